@@ -26,7 +26,9 @@ TRUSTED_BASE = BASE_TRUSTED + [
     'inverse_scale(scale(v)) may differ from v by one ulp (observed), the harness compares with tolerance 1e-9',
     'solves and polynomial/Chebyshev coefficient variables are not in the concrete model (pickups are)',
 ]
-RULE = ('scenarios: seeded singlets/doublets (+plane window) with ideal and catalogue media, 1-3 wavelengths; perturbations on '
+RULE = ('classes in every run: compensator limits none/lower/upper/two-sided with perturbations driving the compensator against '
+        'them (independent bounded reference), solve / thickness pickup / radius pickup depending on a compensator, boundary seeds; '
+        'scenarios: seeded singlets/doublets (+plane window) with ideal and catalogue media, 1-3 wavelengths; perturbations on '
         'every variable type (radius conic thickness index asphere_coeff tilt decenter) with Scalar/Range/normal/uniform samplers, '
         '0-1 compensators (generic / least_squares), optional pickup, 1-8 trials, ray-failure and nominal-value perturbations; '
         'non-trivial = at least one finite operand value that differs from the nominal one')
@@ -285,6 +287,88 @@ def nominal_scenario(r, idx):
     return sc
 
 
+def two_lens(r):
+    """two air-spaced positive singlets: the air gap (thickness 2) and the radii all move f2, so a gap / radius
+    compensator really compensates and a solve / pickup can depend on it"""
+    R1, R3 = r.uniform(45, 60), r.uniform(70, 95)
+    gap = r.uniform(5.0, 8.0)
+    surfs = [{'radius': R1, 'thickness': r.uniform(3, 5), 'material': ['ideal', r.uniform(1.48, 1.6), 0.0]},
+             {'radius': -R1 * r.uniform(0.9, 1.1), 'thickness': gap, 'material': 'air'},
+             {'radius': R3, 'thickness': r.uniform(2.5, 4), 'material': ['ideal', r.uniform(1.55, 1.7), 0.0]},
+             {'radius': -R3, 'thickness': r.uniform(50, 70), 'material': 'air'}]
+    return _lens(surfs, waves=((r.choice(WAVES), True),))
+
+
+BOUND_KINDS = ['none', 'lower', 'upper', 'two-sided']
+
+
+def bounded_scenario(r, idx, kind):
+    """a compensator with every kind of limits, and perturbations that drive it against them (both directions)"""
+    spec = two_lens(r)
+    R1 = spec['surfaces'][0]['radius']
+    gap = spec['surfaces'][1]['thickness']
+    w = r.uniform(0.2, 0.45)               # well inside the excursion of the unconstrained optimum (about +-1 or more)
+    bounds = {}
+    if kind in ('lower', 'two-sided'):
+        bounds['min_val'] = gap - w
+    if kind in ('upper', 'two-sided'):
+        bounds['max_val'] = gap + w * r.uniform(0.7, 1.3)
+    analysis = r.choice(['sens', 'mc'])
+    d = R1 * r.uniform(0.045, 0.06)        # moves the unconstrained optimum of the gap by several w, both ways
+    # a RangeSampler in both analyses: its end points are always applied, so every declared limit becomes active
+    sam = ['range', R1 - d, R1 + d, r.choice([3, 4]) if analysis == 'sens' else 3]
+    return {'name': f'b{idx}-{kind}', 'lens': spec, 'pickups': [], 'solves': [], 'operands': [['f2', {}]],
+            'perts': [{'type': 'radius', 'kw': {'surface_number': 1}, 'sampler': sam}],
+            'comps': [{'type': 'thickness', 'kw': {'surface_number': 2}, 'bounds': bounds}],
+            'method': r.choice(['generic', 'least_squares']), 'tol': 1e-5, 'analysis': analysis,
+            'trials': 4 if analysis == 'mc' else None, 'WS': [0.45, 0.5876, 0.7], 'check_repro': True,
+            'bounded_ref': True, 'ref_search': [0.2, 4.0 * gap], 'bound_kind': kind}
+
+
+DEP_KINDS = ['solve', 'pickup-thickness', 'pickup-radius']
+
+
+def dependent_scenario(r, idx, dep):
+    """a solve or a pickup whose value depends on a COMPENSATOR variable"""
+    spec = two_lens(r)
+    R1 = spec['surfaces'][0]['radius']
+    gap = spec['surfaces'][1]['thickness']
+    pickups, solves = [], []
+    if dep == 'solve':
+        comp = {'type': 'thickness', 'kw': {'surface_number': 2}}
+        solves.append(['marginal_ray_height', 5, 0.0])          # paraxial image-distance solve
+    elif dep == 'pickup-thickness':
+        comp = {'type': 'thickness', 'kw': {'surface_number': 2}}
+        pickups.append([2, 'thickness', 3, spec['surfaces'][2]['thickness'] / gap, 0.0])   # glass thickness follows the gap
+    else:
+        comp = {'type': 'radius', 'kw': {'surface_number': 4}}
+        pickups.append([4, 'radius', 3, -1.0, 0.0])             # symmetric second lens
+    analysis = r.choice(['sens', 'mc'])
+    d = R1 * r.uniform(0.01, 0.02)
+    sam = ['range', R1 - d, R1 + d * r.uniform(1.2, 2.0), r.choice([2, 3])] if analysis == 'sens' \
+        else ['normal', R1 + d, d / 3, r.randrange(0, 10 ** 6)]
+    ops = [['f2', {}]]
+    if dep == 'solve' and r.random() < 0.5:
+        ops.append(['real_y_intercept', {'surface_number': -1, 'Hx': 0.0, 'Hy': 0.0, 'Px': 0.0, 'Py': 0.7,
+                                         'wavelength': spec['wavelengths'][0][0]}])
+    return {'name': f'd{idx}-{dep}', 'lens': spec, 'pickups': pickups, 'solves': solves, 'operands': ops,
+            'perts': [{'type': 'radius', 'kw': {'surface_number': 1}, 'sampler': sam}], 'comps': [comp],
+            'method': 'generic', 'tol': 1e-5, 'analysis': analysis, 'trials': 2 if analysis == 'mc' else None,
+            'WS': [0.45, 0.5876, 0.7], 'check_repro': True, 'dependent': dep}
+
+
+def class_scenarios(ctx, seed_off=0):
+    """the input classes every run (quick tier included) must exercise"""
+    r = random.Random(ctx.seed * 104723 + 17 + seed_off)
+    out = [bounded_scenario(r, i, k) for i, k in enumerate(BOUND_KINDS)]
+    out += [dependent_scenario(r, i, k) for i, k in enumerate(DEP_KINDS)]
+    if not ctx.quick():
+        for i in range(4, 24):
+            out.append(bounded_scenario(r, i, BOUND_KINDS[i % 4]))
+            out.append(dependent_scenario(r, i, DEP_KINDS[i % 3]))
+    return out
+
+
 def scenarios(ctx, n, seed_off=0):
     r = random.Random(ctx.seed * 7919 + seed_off)
     out = []
@@ -489,6 +573,35 @@ def python_level_checks(sc, r):
                 out.append(dict(base, check='nominal_value', violates_property=True, diff=nd,
                                 detail=f'perturbation equal to nominal gives {tr["row_ops"]} != nominal {r["ops_nominal"]}'))
                 break
+    # compensator limits: the recorded (compensated) lens must respect the declared limits ...
+    for ci, c in enumerate(sc['comps']):
+        b = c.get('bounds') or {}
+        for ti, tr in enumerate(r['trials']):
+            v = comp_raw(sc, tr['snap'])[ci]
+            lo, hi = b.get('min_val'), b.get('max_val')
+            if (lo is not None and v < lo - 1e-6 * (1 + abs(lo))) or (hi is not None and v > hi + 1e-6 * (1 + abs(hi))):
+                out.append(dict(base, check='comp_bounds', violates_property=True, trial=ti,
+                                detail=f'compensator {c["type"]} {c["kw"]} = {v!r} outside its declared limits [{lo}, {hi}] '
+                                       f'in trial {ti} (recorded values {tr["values"]})'))
+                break
+    # ... and the recorded operand values equal those of an independent bounded minimisation on a fresh lens
+    if r.get('bref'):
+        tolr = 5e-4 if sc.get('method') == 'generic' else 1e-2
+        for ti, (tr, ref) in enumerate(zip(r['trials'], r['bref'])):
+            if not all(_close(a, b, tolr) for a, b in zip(tr['row_ops'], ref['ops'])):
+                out.append(dict(base, check='bounded_reference', violates_property=True, trial=ti,
+                                detail=f'trial {ti}: recorded operands {tr["row_ops"]} (compensator {comp_raw(sc, tr["snap"])}) != independent '
+                                       f'bounded minimisation {ref["ops"]} (compensator {ref["x"]} in [{ref["lo"]}, {ref["hi"]}])'))
+                break
+    # to_dict() of the lens equals the nominal one (only reported when the prescription snapshot agrees: otherwise the
+    # prescription clauses above already carry the witness and its attribution)
+    if r.get('to_dict_ok'):
+        if r.get('dict_diff_run') and not r['diff_run']:
+            out.append(dict(base, check='dict_run', violates_property=True,
+                            detail='Optic.to_dict() after run() differs from nominal at ' + ', '.join(r['dict_diff_run'][:4])))
+        if r.get('dict_diff_reset') and not r['diff_reset']:
+            out.append(dict(base, check='dict_reset', violates_property=True,
+                            detail='Optic.to_dict() after reset() differs from nominal at ' + ', '.join(r['dict_diff_reset'][:4])))
     exp = len(_plan_which(sc))
     if r['nrows'] != exp:
         out.append(dict(base, check='row_count', violates_property=True, detail=f'{r["nrows"]} rows, expected {exp}'))
@@ -496,6 +609,23 @@ def python_level_checks(sc, r):
         if tr.get('type_ok') is False:
             out.append(dict(base, check='row_label', violates_property=True, detail='row labelled with another perturbation'))
             break
+    return out
+
+
+def comp_raw(sc, snap):
+    """unscaled value of every compensator read from a prescription snapshot (independent of Variable)"""
+    out = []
+    for c in sc['comps']:
+        i = c['kw']['surface_number']
+        t = c['type']
+        if t == 'thickness':
+            out.append(snap[i + 1]['z'] - snap[i]['z'])
+        elif t == 'radius':
+            out.append(snap[i]['rad'])
+        elif t == 'conic':
+            out.append(snap[i]['con'])
+        else:
+            out.append(float('nan'))
     return out
 
 
@@ -518,7 +648,7 @@ def _plan_which(sc):
 
 def system_checks(ctx):
     n = ctx.n(32, 400)
-    scs = list(targeted().values()) + scenarios(ctx, n)
+    scs = list(targeted().values()) + class_scenarios(ctx) + scenarios(ctx, n)
     try:
         res = run_impl(scs)
     except Exception as e:   # noqa
@@ -529,11 +659,38 @@ def system_checks(ctx):
         if 'error' in r:
             errors.append({'scenario': sc, 'check': 'impl-raised', 'detail': r['error'], 'violates_property': False})
             continue
+        if sc.get('solves'):
+            continue        # solves are not in the Coq model: implementation-level clauses only (below)
         bodies.append(coq_body(sc, r))
         idx.append(i)
     cres = vlib.run_cases('c15', 'From OV Require Import Model.M_C15.', bodies) if bodies else []
     dis, wit = [], []
     hist = {}
+    n_solve = 0
+    for sc, r in zip(scs, res):
+        if 'error' in r:
+            continue
+        # clauses stated directly on the implementation (all scenarios): limits respected, independent bounded
+        # reference, to_dict() back at nominal; for lenses with solves also the prescription clauses
+        keep = ('comp_bounds', 'bounded_reference', 'dict_run', 'dict_reset')
+        if sc.get('solves'):
+            keep = None
+            n_solve += 1
+            hist['solve+comp' if sc['comps'] else 'solve'] = hist.get('solve+comp' if sc['comps'] else 'solve', 0) + 1
+        for pw in python_level_checks(sc, r):
+            if keep is None or pw['check'] in keep:
+                wit.append(pw)
+        if sc.get('dependent', '').startswith('pickup'):
+            hist['pickup-from-compensator'] = hist.get('pickup-from-compensator', 0) + 1
+        for c in sc['comps']:
+            b = c.get('bounds')
+            if b is not None:
+                k = sc.get('bound_kind') or ('two-sided' if len(b) == 2 else 'lower' if 'min_val' in b else 'upper' if 'max_val' in b else 'none')
+                hist['bounds:' + k] = hist.get('bounds:' + k, 0) + 1
+                act = sum(1 for tr in r['trials'] for v in comp_raw(sc, tr['snap'])
+                          if (b.get('min_val') is not None and abs(v - b['min_val']) < 1e-4)
+                          or (b.get('max_val') is not None and abs(v - b['max_val']) < 1e-4))
+                hist['trials-with-active-limit'] = hist.get('trials-with-active-limit', 0) + act
     nontriv = 0
     samples = []
     coq_err = None
@@ -563,7 +720,7 @@ def system_checks(ctx):
             samples.append({'scenario': sc['name'], 'analysis': sc['analysis'],
                             'perturbations': [[p['type'], p['sampler'][0]] for p in sc['perts']],
                             'row0': r['trials'][0]['row_ops'] if r['trials'] else None})
-    out = {'name': 'tolerancing-state-machine', 'n': len(idx), 'nontrivial': nontriv, 'samples': samples,
+    out = {'name': 'tolerancing-state-machine', 'n': len(idx) + n_solve, 'nontrivial': nontriv, 'samples': samples,
            'histogram': hist, 'disagreements': dis + wit + errors,
            'note': 'model run (vm_compute, FOps) vs real SensitivityAnalysis/MonteCarlo: per-trial lens state, recorded values, '
                    'compensator values, lens after run and after reset; spec clauses evaluated on the implementation data'}
@@ -724,7 +881,8 @@ def search(ctx, broken, disagreements):
     """the property stated directly on the implementation (no Coq): seeded sweep of scenarios; every row is
     re-evaluated on a freshly built nominal lens, the prescription after run()/reset() is compared with the nominal
     one, seeded runs are repeated"""
-    scs = list(targeted().values()) + scenarios(ctx, ctx.n(40, 300), seed_off=104729)
+    scs = list(targeted().values()) + class_scenarios(ctx) + class_scenarios(ctx, seed_off=1) \
+        + scenarios(ctx, ctx.n(40, 300), seed_off=104729)
     res = run_impl(scs)
     out = []
     seen = set()
